@@ -21,7 +21,10 @@ Inductive field :=
 | FDisableAnsi | FWorkingDir | FNamespace | FReplicas | FExtensions | FDescription | FVars
 | FIsForeground | FIsTty | FIsElevated | FLaunchTimeout | FOriginalConfig | FReplicaNum
 | FReplicaName | FExecutable | FArgs
-| FEffEnv.   (* derived: project-level environment ++ process environment = what the command gets *)
+| FEffEnv    (* derived: project-level environment of the SAME project ++ process environment *)
+| FEffEnv0.  (* derived: project-level environment the supervisor was started with ++ process
+                environment = what a command launched by the running supervisor actually gets
+                (UpdateProject never replaces project.Environment) *)
 
 Scheme Equality for field.
 
